@@ -1,6 +1,170 @@
 """Per-property wiring: which model configurations, which scenario generator, which trace spec."""
 
 
+import json, os, re, shutil, hashlib
+
+
+def check_c11(v):
+    """C11: exhaustive small-scope model of the pool protocol; TLC-generated behaviours replayed on the
+    real code through scheduler gates and validated against the model; free-running race tier."""
+    def f(r):
+        quick = r.tier == "quick"
+        # (a) the design: every interleaving of 2 (thorough: 3) callers x adversary x GC
+        v.model_check(r, "pools2", "Pools.tla", "Pools_MC.cfg", workers=8)
+        v.model_check(r, "poolslive", "Pools.tla", "Pools_Live.cfg", workers=1)
+        if not quick:
+            v.model_check(r, "pools3", "Pools.tla", "Pools_MC3.cfg", workers=14, timeout=3000)
+        for d in ("EarlyPut", "SharedStatic", "ResultAliasesBuffer"):
+            # non-vacuity of the invariants: each named deviation must violate them
+            v.model_check(r, "neg" + d, "Pools.tla", "Pools_Neg_%s.cfg" % d, workers=2, expect_violation="Invariant Inv is violated")
+        binp = v.build_harness(r)
+        if r.hook_mode == "none":
+            r.notes.append("no verif hook: gate-level replay skipped, only the free-running tier ran")
+        else:
+            replay_schedules(v, r, binp, n=150 if quick else 1500)
+        # (c) free-running tier under the race detector, results validated by the sequential specification
+        racebin = v.build_harness(r, race=True)
+        env = v.go_env()
+        env["GORACE"] = "halt_on_error=0 exitcode=66"
+        cap = []
+        g = v.gen_traces(r, racebin, os.path.join(r.dir, "tr"), per_shard=1500, env=env, capture=cap)
+        r.samples += [v.short(e) for e in g.get("samples", [])][:3]
+        bad, nbad = v.validate_traces(r, g["files"], "LibTrace.tla", "LibTrace.cfg")
+        if nbad.get("INC", 0):
+            raise v.Inconclusive("inconclusive events in the free-running tier: %s" % [b for b in bad if b["p"] == "INC"][:3])
+        r.nontrivial += sum(1 for _ in [0])  # placeholder, real count below
+        r.extra["free_running_events"] = g["events"]
+        for p, n in nbad.items():
+            if n and p != "C11":
+                r.other_props[p] = r.other_props.get(p, 0) + n
+        mine = [b for b in bad if b["p"] == "C11"]
+        races = [m for m in re.finditer(r"WARNING: DATA RACE", cap[0] if cap else "")]
+        if mine or races:
+            # a second run must show it again before it counts
+            cap2 = []
+            g2 = v.gen_traces(r, racebin, os.path.join(r.dir, "tr2"), per_shard=1500, env=env, capture=cap2)
+            bad2, nbad2 = v.validate_traces(r, g2["files"], "LibTrace.tla", "LibTrace.cfg")
+            again = [b for b in bad2 if b["p"] == "C11"]
+            races2 = re.findall(r"WARNING: DATA RACE", cap2[0] if cap2 else "")
+            if (mine and again) or (races and races2):
+                reason = mine[0]["r"] if (mine and again) else "data race reported by the race detector in two runs"
+                d = os.path.join(v.ROOT, "replays", "C11")
+                os.makedirs(d, exist_ok=True)
+                path = os.path.join(d, "free-running-%d.json" % r.seed)
+                with open(path, "w") as fh:
+                    json.dump({"property": "C11", "mode": "free", "tier": r.tier, "seed": r.seed, "reason": reason,
+                               "race_report": (cap[0] if cap else "")[-4000:] if races else ""}, fh, indent=1)
+                r.violations.append({"reason": reason, "replay": path, "event": None})
+            else:
+                raise v.Inconclusive("a rejection in the free-running tier did not reproduce")
+        r.nontrivial = r.extra.get("schedules_replayed", 0) + r.classes.get("value", 0) + r.classes.get("accept", 0)
+    return f
+
+
+def sim_schedules(v, r, n, seed):
+    wd = os.path.join(r.dir, "gen")
+    rc, out, _, _ = v.tlc(r, wd, "PoolsGen.tla", "PoolsGen.cfg", workers=1, timeout=900,
+                          extra_args=["-simulate", "num=%d" % n, "-depth", "41", "-seed", str(seed)])
+    seen, scheds = set(), []
+    for line in out.splitlines():
+        if line.startswith('<<"SCHED"'):
+            js = json.loads(line[line.index(", ") + 2:-2])
+            if js not in seen:
+                seen.add(js)
+                scheds.append(js)
+    if not scheds:
+        raise v.Inconclusive("TLC generated no behaviours from PoolsGen:\n" + out[-2000:])
+    return scheds
+
+
+def pools_validate(v, r, idx, trace):
+    wd = os.path.join(r.dir, "pv-%s" % idx)
+    env = {"VERIF_TRACE": trace, "JAVA_TOOL_OPTIONS": v.TLC_JAVA + " -Dtlc2.tool.queue.IStateQueue=StateDeque"}
+    rc, out, gen, dist = v.tlc(r, wd, "PoolsTrace.tla", "PoolsTrace.cfg", env_extra=env, workers=1, timeout=1800)
+    accepted = "Invariant NotDone is violated" in out
+    rejected = "Model checking completed. No error has been found." in out
+    if not accepted and not rejected:
+        raise v.Inconclusive("TLC failed on pool trace %s:\n%s" % (trace, out[-3000:]))
+    shutil.rmtree(wd, ignore_errors=True)
+    return accepted, gen, dist, out
+
+
+def replay_schedules(v, r, binp, n):
+    scheds = sim_schedules(v, r, n, r.seed)
+    sf = os.path.join(r.dir, "sched.txt")
+    with open(sf, "w") as fh:
+        fh.write("\n".join(scheds) + "\n")
+    out = os.path.join(r.dir, "pools")
+    os.makedirs(out, exist_ok=True)
+    rc, o = v.run([binp, "replay-pools", "-sched", sf, "-out", out, "-seed", str(r.seed), "-chunk", "20"], cwd=r.dir, env=v.go_env(), timeout=3000)
+    if rc != 0:
+        raise v.Inconclusive("gate replay failed:\n" + o[-3000:])
+    info = json.load(open(os.path.join(out, "replay.json")))
+    if info.get("notes"):
+        r.notes += info["notes"][:5]
+        raise v.Inconclusive("gate replay degraded: " + "; ".join(info["notes"][:3]))
+    from concurrent.futures import ThreadPoolExecutor
+    with ThreadPoolExecutor(max_workers=8) as ex:
+        results = list(ex.map(lambda t: pools_validate(v, r, os.path.basename(t[1]), t[1]), enumerate(info["files"])))
+    r.extra["schedules_replayed"] = info["schedules"]
+    r.extra["gate_events"] = info["events"]
+    r.evaluations += info["events"]
+    r.samples.append({"schedule": json.loads(scheds[0])[:12], "note": "first 12 actions of a TLC-generated behaviour of Pools replayed on the real code"})
+    for (acc, gen, dist, _), f in zip(results, info["files"]):
+        r.states += dist
+        r.transitions += gen
+        if acc:
+            r.traces += 1
+            continue
+        # pinpoint the schedule: replay each schedule of the chunk alone, in a fresh process
+        sids = sorted({json.loads(l)["sid"] for l in open(f)})
+        hit = None
+        for sid in sids:
+            d = os.path.join(r.dir, "one-%d" % sid)
+            os.makedirs(d, exist_ok=True)
+            v.run([binp, "replay-pools", "-sched", sf, "-out", d, "-seed", str(r.seed), "-only-sid", str(sid)], cwd=r.dir, env=v.go_env(), timeout=600)
+            fs = json.load(open(os.path.join(d, "replay.json")))["files"]
+            acc1, _, _, _ = pools_validate(v, r, "one-%d" % sid, fs[0])
+            if not acc1:
+                hit = (sid, fs[0])
+                break
+        if hit is None:
+            raise v.Inconclusive("a rejected chunk of schedules was accepted schedule by schedule (did not reproduce)")
+        sid, tf = hit
+        dd = os.path.join(v.ROOT, "replays", "C11")
+        os.makedirs(dd, exist_ok=True)
+        path = os.path.join(dd, "sched-%s.json" % hashlib.sha1(scheds[sid - 1].encode()).hexdigest()[:12])
+        with open(path, "w") as fh:
+            json.dump({"property": "C11", "mode": "gate", "seed": r.seed, "sid": sid, "schedule": json.loads(scheds[sid - 1]),
+                       "reason": "no behaviour of Pools explains the events recorded from the real code for this schedule",
+                       "events": [json.loads(l) for l in open(tf)][:200]}, fh)
+        r.violations.append({"reason": "gate-level trace rejected by Pools (exclusive ownership / reads own data / result correct / result stable)",
+                             "replay": path, "event": {"schedule": sid}})
+        if len(r.violations) >= 3:
+            break
+
+
+def replay_c11(v):
+    def f(r, rp):
+        binp = v.build_harness(r)
+        if rp.get("mode") == "gate":
+            sf = os.path.join(r.dir, "sched.txt")
+            with open(sf, "w") as fh:
+                fh.write(json.dumps(rp["schedule"]) + "\n")
+            d = os.path.join(r.dir, "one")
+            os.makedirs(d, exist_ok=True)
+            # same per-schedule random stream as in the original run: seed*100003 + sid with sid = 1
+            seed = int(rp["seed"]) * 100003 + int(rp["sid"]) - 1
+            v.run([binp, "replay-pools", "-sched", sf, "-out", d, "-seed", "0", "-chunk", "1"], cwd=r.dir, env=v.go_env(), timeout=600)
+            fs = json.load(open(os.path.join(d, "replay.json")))["files"]
+            acc, _, _, _ = pools_validate(v, r, "rp", fs[0])
+            return not acc
+        chk = check_c11(v)
+        chk(r)
+        return bool(r.violations)
+    return f
+
+
 def install(v):
     C = v.CHECKS
     R = v.RULES
@@ -17,6 +181,8 @@ def install(v):
     C["C14"] = v.chk_lib(per_shard=3000)
     C["C15"] = v.chk_lib(per_shard=600)
 
+    C["C11"] = check_c11(v)
+    v.REPLAYS["C11"] = replay_c11(v)
     C["C17"] = v.chk_lib(per_shard=500)
     C["C16"] = v.chk_lib(per_shard=600)
     C["C08"] = v.chk_lib(per_shard=400)
